@@ -555,9 +555,11 @@ def evidence(results, tier):
     nontriv = {(r["shape"], r["stats"]["pipelined"]) for r in acc if r["stats"]["b_hs"] >= 3 and r["stats"]["r_hs"] >= 3}
     sample = None
     for r in acc:
-        if len(r["kinds"]) >= 3 and r["stats"]["pipelined_writes"] > 0:
-            sample = {"run": r["idx"], "register_kinds": r["kinds"], "map_words": r["words"], "transactions": r["stats"]["transactions"], "pipelined_writes": r["stats"]["pipelined_writes"]}
+        if len(r["kinds"]) >= 2 and r["stats"]["pipelined"]:
+            sample = {"run": r["idx"], "register_kinds": r["kinds"], "map_words": r["words"], "transactions": r["stats"]["transactions"], "master_offers_next_write_during_b_phase": True, "handshakes": {k: r["stats"][k] for k in ("aw_hs", "w_hs", "b_hs", "ar_hs", "r_hs")}, "aw_before_w / w_before_aw / same_clock": [r["stats"]["aw_first"], r["stats"]["w_first"], r["stats"]["same_clock"]]}
             break
+    if sample is None and acc:
+        sample = {"run": acc[0]["idx"], "register_kinds": acc[0]["kinds"], "map_words": acc[0]["words"]}
     return {
         "evaluations": len(results),
         "distinct_nontrivial": len(nontriv),
